@@ -88,13 +88,17 @@ def _serialize_element(
         del schema["properties"]
     if "properties" in schema:
         explicit = schema.get("required", [])
-        schema["required"] = explicit + [
-            prop.source or name
+        sources = {
+            name: name if prop.source is None else prop.source
             for name, prop in schema["properties"].items()
-            if prop.required and (prop.source or name) not in explicit
+        }
+        schema["required"] = explicit + [
+            sources[name]
+            for name, prop in schema["properties"].items()
+            if prop.required and sources[name] not in explicit
         ]
         schema["properties"] = {
-            prop.source or name: prop
+            sources[name]: prop
             for name, prop in schema["properties"].items()
         }
         if not schema["required"] and not isinstance(
